@@ -178,6 +178,11 @@ type attr struct {
 	// nameSplit indicates whether template text of a later text node has extended the attribute
 	// name, as in `<img src{{if .C}}{{end}}set="...">`. name holds the first part only.
 	nameSplit bool
+	// valueFromCaller is set while a called template is analysed, as long as the context is still
+	// inside the attribute value in which the template was called. It is dropped with the rest
+	// of the attr when the value ends, so it tells whether a called template has only extended
+	// the value of its call site.
+	valueFromCaller bool
 	// names contains all possible names the attribute could assume because of context joining.
 	// For example, after joining the contexts in the "if" and "else" branches of
 	//     <a {{if .C}}title{{else}}name{{end}}="foo">
